@@ -388,6 +388,21 @@ def atoms_with_head(r: Rat, head: str) -> List[int]:
 
 
 # --------------------------------------------------------------------------- substitution
+def _subst_val_idx(v, mapping, inner, rebuild):
+    """substitution of the element index inside a non-rational argument of an atom: a predicate (the test of a conditional value) and its scalar
+    operands are pointwise - they speak about element $i like the value they guard - whereas an array-valued operand binds $i itself"""
+    from .values import P as _P, Num as _Num, Gam as _Gam
+    if isinstance(v, _P):
+        return _P(v.op, *[_subst_val_idx(a, mapping, inner, rebuild) if hasattr(a, 'subst') else a for a in v.args])
+    if isinstance(v, _Num) and v.length is None:
+        return _Num(subst(v.r, mapping, rebuild), None, v.kind)
+    if isinstance(v, _Gam):
+        return _Gam(_subst_val_idx(v.pred, mapping, inner, rebuild), _subst_val_idx(v.a, mapping, inner, rebuild), _subst_val_idx(v.b, mapping, inner, rebuild))
+    if not inner:
+        return v
+    return v.subst(lambda q: subst(q, inner, rebuild))
+
+
 def subst(r, mapping: Dict[int, Rat], rebuild=None, _memo=None):
     """Replace atoms by rational functions, rebuilding opaque atoms whose
     arguments change (through `make_atom`, so axioms are re-applied)."""
@@ -399,9 +414,7 @@ def subst(r, mapping: Dict[int, Rat], rebuild=None, _memo=None):
         if hasattr(r, 'subst'):
             if idx_atom() in mapping:
                 inner = {k: v for k, v in mapping.items() if k != idx_atom()}
-                if not inner:
-                    return r
-                return r.subst(lambda q: subst(q, inner, rebuild))
+                return _subst_val_idx(r, mapping, inner, rebuild)
             return r.subst(lambda q: subst(q, mapping, rebuild, _memo))
         return r
     keys = set(mapping)
